@@ -273,11 +273,15 @@ def run(ctx):
                 continue
             sets = []
             if len(per_seed) > 1:
+                allcomms = {}                # a communicator one interpreter used and another did not is still the same communicator
+                for d_ in per_seed:
+                    for cn_, mem_ in d_["comms"].items():
+                        allcomms.setdefault(cn_, mem_)
                 mixed = {"progs": [per_seed[r % K]["progs"][r] for r in range(n)],
-                         "pos": [per_seed[r % K]["pos"][r] for r in range(n)], "comms": per_seed[0]["comms"]}
+                         "pos": [per_seed[r % K]["pos"][r] for r in range(n)], "comms": allcomms}
                 sets.append(("ranks from different interpreters (hash seed r mod %d)" % K, mixed))
                 mixed2 = {"progs": [per_seed[(r * 5 + 3) % K]["progs"][r] for r in range(n)],
-                          "pos": [per_seed[(r * 5 + 3) % K]["pos"][r] for r in range(n)], "comms": per_seed[0]["comms"]}
+                          "pos": [per_seed[(r * 5 + 3) % K]["pos"][r] for r in range(n)], "comms": allcomms}
                 sets.append(("ranks from different interpreters (hash seed (5r+3) mod %d)" % K, mixed2))
             for hs, d in enumerate(per_seed):
                 sets.append(("hash seed %d" % hs, d))
